@@ -214,3 +214,17 @@ pub fn gen_utf8_crlf(p: &mut Planner, len: usize) -> Vec<u8> {
     }
     out
 }
+
+/// transport rewrite LF -> CRLF: only a LF that is not already preceded by CR is touched
+pub fn lf_to_crlf(s: &str) -> String {
+    let mut out = String::with_capacity(s.len() + 16);
+    let mut prev = '\0';
+    for c in s.chars() {
+        if c == '\n' && prev != '\r' {
+            out.push('\r');
+        }
+        out.push(c);
+        prev = c;
+    }
+    out
+}
